@@ -134,8 +134,11 @@ def make(name, G, rng):
         b1 = np.array([[x, y0 + 3.0] for x in xs])
         b2 = np.array([[x, y0 + 6.0] for x in xs])
         net = LaneletNetwork()
-        net.add_lanelet(Lanelet(b1, (b0 + b1) / 2, b0, 1, adjacent_left=2, adjacent_left_same_direction=True))
-        net.add_lanelet(Lanelet(b2, (b1 + b2) / 2, b1, 2, adjacent_right=1, adjacent_right_same_direction=True))
+        # ... and ONE stop line object across both adjacent lanes
+        from commonroad.common.common_lanelet import LineMarking, StopLine
+        sl = StopLine(b0[-1].copy(), b2[-1].copy(), LineMarking.SOLID)
+        net.add_lanelet(Lanelet(b1, (b0 + b1) / 2, b0, 1, adjacent_left=2, adjacent_left_same_direction=True, stop_line=sl))
+        net.add_lanelet(Lanelet(b2, (b1 + b2) / 2, b1, 2, adjacent_right=1, adjacent_right_same_direction=True, stop_line=sl))
         pole = np.array([x0 + 1.0, y0 - 1.0])
         net.add_traffic_sign(TrafficSign(11, [TrafficSignElement(TrafficSignIDZamunda.MAX_SPEED, ["50"])], {1}, pole), {1})
         net.add_traffic_light(TrafficLight(12, pole, G.traffic_light(99, full=True).traffic_light_cycle), {1})
